@@ -707,4 +707,5 @@ func genKs(g *Gen) {
 			}
 		}
 	}
+	genKsc(g) // C04 / C12: the byte-level codecs of counters, index keys and the exported file (engine ksc lines)
 }
